@@ -206,8 +206,9 @@ pub fn check_c06(ctx: &mut Ctx, cfg: &Cfg, how: How) {
     with_writer(cfg, how, |w| {
         let r = calc(w);
         match &r {
+            WOut::WrongSize { .. } => unreachable!("calc never reports WrongSize"),
             WOut::Panic(p) => {
-                ctx.violate("calculate_size-panics", kind, &crate::drive::short_site(&p.site), case, "calculate_size returns", r.render());
+                ctx.violate("calculate_size-panics", kind, &crate::drive::site_file(&p.site), case, "calculate_size returns", r.render());
             }
             WOut::Ok(n) => {
                 let n = *n;
@@ -230,6 +231,7 @@ pub fn check_c06(ctx: &mut Ctx, cfg: &Cfg, how: How) {
                         let feature = match &got {
                             WOut::Panic(_) => "panic".to_string(),
                             WOut::Ok(m) => format!("returns-{}", if *m < n { "less" } else { "more" }),
+                            WOut::WrongSize { .. } => "wrong-size".to_string(),
                             WOut::Err(e) => format!("err-{}", variant_name(&format!("{e:?}"))),
                         };
                         ctx.violate(
@@ -363,7 +365,7 @@ pub fn floor_c06(ctx: &Ctx) -> Vec<(String, bool)> {
 
 /// Canonical form of an image for comparison under C07's two relaxations
 /// (FIR entry order; NACK word choice). Non-tileable images are returned as is.
-fn canon(img: &[u8]) -> Vec<u8> {
+pub fn canon(img: &[u8]) -> Vec<u8> {
     let Some(tiles) = dec::tiling(img) else { return img.to_vec() };
     let mut out = Vec::with_capacity(img.len());
     for (a, b) in tiles {
@@ -511,10 +513,11 @@ pub fn check_c16(ctx: &mut Ctx, cfg: &Cfg, how: How) {
         ctx.class_dyn(format!("c16:rule-violated:{}{}", v.name(), if viol.len() == 1 { ":alone" } else { ":combined" }));
     }
     match &r {
+        WOut::WrongSize { .. } => unreachable!("calc never reports WrongSize"),
         WOut::Panic(p) => ctx.violate(
             "calculate_size-panics",
             kind,
-            &crate::drive::short_site(&p.site),
+            &crate::drive::site_file(&p.site),
             || cfg_case("c16", cfg, how),
             "calculate_size returns",
             r.render(),
@@ -833,7 +836,7 @@ pub fn check_c17(ctx: &mut Ctx, cfg: &Cfg, how: How) {
             let class = if outs[0] == WOut::Ok(0) || matches!(outs[0], WOut::Ok(_)) { "ok" } else if n.is_some() { "too-small" } else { "invalid" };
             ctx.class_dyn(format!("c17:{kind}:{class}:{}:{}", pk(cfg), if n.map(|n| l > n).unwrap_or(false) { "slack" } else { "exact-or-less" }));
             if let Some(p) = outs.iter().find_map(|o| if let WOut::Panic(p) = o { Some(p) } else { None }) {
-                ctx.violate("write-panics", kind, &crate::drive::short_site(&p.site), case, "write_into returns", format!("panic at {}: {}", crate::drive::short_site(&p.site), p.msg));
+                ctx.violate("write-panics", kind, &crate::drive::site_file(&p.site), case, "write_into returns", format!("panic at {}: {}", crate::drive::short_site(&p.site), p.msg));
                 return;
             }
             if outs[0] != outs[1] || outs[0] != outs[2] {
@@ -894,7 +897,7 @@ pub fn check_c17(ctx: &mut Ctx, cfg: &Cfg, how: How) {
                         }
                     }
                 }
-                WOut::Panic(_) => unreachable!(),
+                WOut::Panic(_) | WOut::WrongSize { .. } => unreachable!(),
             }
         }
         ctx.nontrivial(hash_of(cfg));
